@@ -462,4 +462,27 @@ theorem forget_aborted_unobservable (cat : Catalog) (ops : List VOp) (h : Nat) :
   have := see σv.txns rfl g1'
   exact this.symm
 
+
+/-! ## the hypotheses are satisfiable, the statements are not vacuous -/
+
+/-- a state in which VACUUM has something to do: row 1 was updated (2 versions), row 2 carries the mark of a rolled-back
+    DELETE, a rolled-back INSERT left a third row -/
+def busy : List VOp :=
+  pre ++ [.op (.auto (.upd "t" "v" true (.int 1) (kEq 1))),
+          .op (.begin "s1"), .op (.exec "s1" (.del "t" (kEq 2))), .op (.exec "s1" (.ins "t" [[.int 3, .int 30]])), .op (.rollback "s1")]
+
+/-- … VACUUM removes the superseded version, the rolled-back row and the stale delete mark (size 5 → 2, 3 rows → 2) and a
+    transaction beginning afterwards reads the same two rows as one beginning before -/
+example : (reached catT busy).size = 5 ∧ ((reached catT busy).vacuum {} {}).size = 2 ∧
+    (reached catT busy).rows.length = 3 ∧ ((reached catT busy).vacuum {} {}).rows.length = 2 ∧
+    (view {} (((reached catT busy).vacuum {} {}).freshSnap {}) ((reached catT busy).vacuum {} {}).rows).map (·.vals) =
+      [[.int 1, .int 11], [.int 2, .int 20]] := by decide
+
+/-- an instance of `bounded_growth` (three UPDATE-all cycles) and of the hypothesis of `vacuum_keeps_later_sessions_consistent` -/
+example : (cycles (vfinal {} {} (VState.init catT) (busy ++ [.vacuum]))
+    [.upd "t" "v" true (.int 1) none, .upd "t" "v" true (.int 1) none, .upd "t" "v" true (.int 1) none]).db.size = 2 := by decide
+
+example : ∀ op ∈ [Op.auto (.upd "t" "v" true (.int 1) none), .begin "s2", .exec "s2" (.del "t" none), .commit "s2"],
+    op.keeps "s1" = true := by decide
+
 end AxVerif.Db.C13
